@@ -86,7 +86,10 @@ export class ProcGenWrapperDom {
     data: DataValue,
     bindingMapGenList: { [field: string]: BindingMapGen[] },
   ): void {
-    const updaters = bindingMapGenList[field]
+    // (a field named like a member of Object.prototype must not find the inherited member)
+    const updaters = Object.prototype.hasOwnProperty.call(bindingMapGenList, field)
+      ? bindingMapGenList[field]
+      : undefined
     if (updaters === undefined) return
     for (let i = 0; i < updaters.length; i += 1) {
       const bindingMapGen = updaters[i]!
